@@ -36,7 +36,7 @@ ASSUMPTIONS = ['same(v,w) is the hand-written canon of the spec language: type e
                'pickle is not a route for big-endian ndarrays (numpy itself normalises the byte order for protocol < 5), for functions and for classes that cannot be imported by name',
                'objects derived from meshes and Systems are compared among themselves only where a behavioural description through public attributes differs; they are not compared with constructor terms',
                'every hash is computed with no other corpus object alive, so that the interning defect (part 2) cannot leak into the corpus verdicts']
-BUDGET_S = {'quick': 400, 'thorough': 3000}
+BUDGET_S = {'quick': 900, 'thorough': 3600}
 SEEDS = (0, 1, 12345)
 
 
@@ -234,7 +234,7 @@ def _run_corpus(spec, tier, res):
             h = _judge_single(v, route, hash_of(s, route), res)
             if h is not None and h0 is not None and h != h0:
                 m = minimal_unstable(s, route)
-                res.violation('unstable:{}:{}'.format(nodename(m), route), 'nutils_hash of {} depends on the construction route: v0 -> {}, {} -> {} (smallest unstable part: {})'.format(
+                res.violation('unstable:{}:{}'.format(nodename(m), cc.variant_label(m, route)), 'nutils_hash of {} depends on the construction route: v0 -> {}, {} -> {} (smallest unstable part: {})'.format(
                     cc.expr(s)[:300], h0.hex(), route, h.hex(), cc.expr(m)[:300]), {'kind': 'unstable', 'spec': m, 'routes': ['v0', route]})
     # (2) injectivity: own block against every block j >= i, joined on the hash
     index = {}
